@@ -22,18 +22,27 @@ ENTRY = dict(
                    "identical result (split_pack over N, no byte boundary; big-endian row read proved for rows of any length); count, "
                    "type, key-set and phase mismatches are refused; every processed value is +-1; int / binary / 0b / 0x keys are sent "
                    "to the right radix and equivalent keys give the same result. Closed under the global context. The model is run "
-                   "against the implementation on ~2900 generated cases per quick run with exact rational comparison.",
+                   "against the implementation on ~4000 generated cases per quick run with exact rational comparison (within 1e-9 on the "
+                   "non-power-of-two-shots stream); c06_total: the loops never crash and refuse only for a count mismatch or a rejected key.",
         level_note=STD_NOTE + "No axioms.",
         assumptions=[
             "Model/Reconstruct.v is a hand-written model of cutting_reconstruction.py (+ bit_count, _get_pauli_indices' length); it is "
             "tied to /repo by the C06 correspondence (vm_compute of the model on the inputs the implementation ran on, results compared "
             "as exact rationals on dyadic data) and by the regenerated count of ValueError sites (7)",
-            "the model starts from (len(pauli_indices), pauli_bitmasks) per commuting group and the lookup locations of every "
-            "sub-observable; the harness reads them from the real ObservableCollection (how groups are built is C11's business); the "
-            "invariants used as hypotheses (locations exist and hold the observable, bitmask < 2^#measured) are monitored on every case",
+            "the model is fed Pauli LETTERS: which observables share a commuting group and the group's general observable are read from "
+            "the real ObservableCollection (PauliList.group_commuting / most_general_observable are C11's business; monitored: general = "
+            "union of members, phases 0); measured qubits, bitmasks and lookup are recomputed by the model (c06_measured_qubits, "
+            "c06_mask_bits, c06_lookup) and the real pauli_indices / pauli_bitmasks / lookup are compared with them (streams cog, lookup "
+            "and monitors), so the reconstruction model never receives the implementation's own masks",
+            "OBSERVATION (not reachable, not tested on the implementation): group_commuting puts every unique observable into exactly one "
+            "group, so every lookup list has exactly one location (monitor lookup_has_exactly_one_location) and np.mean over locations "
+            "is the identity on all reachable inputs; the 'mean over locations' clause is proved for the model (any number of "
+            "locations) but compared with the implementation only for one location",
             "Python's int(s, 0) is an oracle (Section variable pyint0) with the contract 0b+binary digits / 0x+hex digits -> positional "
             "value; the reference instance pyint0_ref is proved to satisfy the contract and is compared with int(s, 0) on every "
             "generated string (strings without sign, underscore or non-space white space)",
+            "OBSERVATION: _outcome_to_int treats a digit string whose second character is 0/1 as binary and any other as int(s,0): "
+            "'10' -> 2 but '12' -> 12, '2' -> ValueError; such undocumented key shapes are outside the quantifier (judge silent, model = code)",
             "outcome keys are non-negative ints or str; quasi-probabilities, coefficients and 1/shots are exact rationals (binary64 "
             "rounding not modelled; the harness only feeds dyadic values on which float arithmetic is exact)",
             "Qiskit containers are taken at face value: QuasiDistribution normalises keys to int on construction (monitored), "
